@@ -1,30 +1,74 @@
-(* C16 -- An interrupt stops all running tasks and records nothing unfinished (PARTIAL).
-   Model/Abort.v: what the abort handlers do as a function of the point where the signal handler
-   raised; Model/Exec.v for the states of the loop. *)
+(* C16 -- An interrupt stops all running tasks and records nothing unfinished.
+   Model/Abort.v: the signal handler, the deferred region around the launch of an operation and run_plan's abort handler, as
+   the sources have them (Gen.Generated gen_launch_block / gen_abort_handler_terminates_registered are re-read from
+   errors/signal.py and execution/executor.py on every run); Model/Exec.v for the states of the loop.
+   "No version is recorded for a task that had not exited 0" is C06_only_success (every label sequence of Model/Store.v,
+   aborts and kills included); "exits non-zero reporting the abort" is checked on the implementation (harness/c16.py). *)
 From Coq Require Import List Arith Bool NArith.
-From Conductor Require Import Model.Loader Model.Planner Model.Exec Model.Abort
-  Proofs.ExecInv Proofs.ExecMain Proofs.AbortProofs.
+From Conductor Require Import Gen.Generated Model.Loader Model.Planner Model.Exec Model.Abort
+  Proofs.ExecInv Proofs.ExecMain Proofs.AbortProofs Proofs.GenTieAbort Refuted.AbortOld.
 Import ListNotations.
 
-(* at every modelled point other than "inside Popen() after the fork", the process groups that
-   receive SIGTERM are exactly the task processes that exist *)
-Theorem C16_kill_all_partial : forall pt,
-  (forall s o, pt <> InLaunch s o InsidePopenAfterFork) -> same_set (killed pt) (live pt).
-Proof. exact kill_all_except_in_popen. Qed.
-Print Assumptions C16_kill_all_partial.
+(* SIGINT / SIGTERM at ANY moment of the launch of an operation -- before the block, before any of its statements (which, the
+   handler only noting the signal inside the block, covers every instant inside them: inside subprocess.Popen() after the fork,
+   between its return and the assignment, before the registration ...), any number of signals -- starting from any state of the
+   loop in which the registered processes are the existing ones: if ConductorAbort is raised, the process groups sent SIGTERM
+   are exactly the task processes that exist (the one just spawned included); otherwise the launch ends outside the region
+   with nothing pending and again registered = existing.  For an operation that spawns a process, one that works
+   synchronously (combine) and one whose launch fails. *)
+Theorem C16_kill_all : forall o k sigs s,
+  depth s = 0 -> pending s = false -> same_set (registered s) (existing s) ->
+  match run o k launch_prog sigs false s with
+  | Abort killed live => same_set killed live
+  | Cont s' => depth s' = 0 /\ pending s' = false /\ same_set (registered s') (existing s')
+  end.
+Proof.
+  intros o k sigs s Hd Hp Hs. apply (run_good o k launch_prog 0 sigs false s gen_launch_block_shape). cbn. auto.
+Qed.
+Print Assumptions C16_kill_all.
 
-(* the full statement is false at that point (known finding D7'): the child exists and is missed *)
-Theorem C16_full_refuted : exists pt x, In x (live pt) /\ ~ In x (killed pt).
-Proof. exact in_popen_refuted. Qed.
-Print Assumptions C16_full_refuted.
+(* a signal is never lost: if one arrives at any of those moments, ConductorAbort is raised (at once outside the block, when
+   the block is left otherwise) *)
+Theorem C16_no_signal_is_lost : forall o k sigs s,
+  depth s = 0 -> pending s = false -> same_set (registered s) (existing s) ->
+  existsb (fun b => b) (firstn (length launch_prog) sigs) = true ->
+  exists killed live, run o k launch_prog sigs false s = Abort killed live.
+Proof.
+  intros o k sigs s Hd Hp Hs Hsig. apply (run_no_loss o k launch_prog 0 sigs false s gen_launch_block_shape); [cbn; auto | right; exact Hsig].
+Qed.
+Print Assumptions C16_no_signal_is_lost.
 
-(* at every state of the main loop (any plan, oracle, jobs): what terminate_processes signals are
-   started-and-unreaped operations, and every started-and-unreaped operation is signalled unless it
-   is a synchronous one (which has no process) *)
+(* without a signal the launch registers exactly the process it created *)
+Theorem C16_quiet_launch_registers_the_new_process : forall o k s,
+  depth s = 0 -> pending s = false ->
+  exists s', run o k launch_prog [] false s = Cont s' /\ depth s' = 0 /\ pending s' = false /\
+    match k with
+    | LProcess => existing s' = existing s ++ [o] /\ registered s' = registered s ++ [o]
+    | _ => existing s' = existing s /\ registered s' = registered s
+    end.
+Proof. intros o k s Hd Hp. exact (run_quiet o k launch_prog s gen_launch_block_shape Hd Hp _ eq_refl). Qed.
+Print Assumptions C16_quiet_launch_registers_the_new_process.
+
+(* the sources: what the theorems above are about is what errors/signal.py and executor.py say now *)
+Theorem C16_launch_block_is_the_sources :
+  launch_prog = map decode gen_launch_block /\ shape 0 (map decode gen_launch_block) = true /\
+  gen_abort_handler_terminates_registered = true.
+Proof. split; [reflexivity|]. split; [exact gen_launch_block_shape | exact gen_abort_handler]. Qed.
+Print Assumptions C16_launch_block_is_the_sources.
+
+(* before the repair D35 the statement was false (former known finding D7'): kept about the old model *)
+Theorem C16_before_D35_refuted : exists pt x, In x (AbortOld.live pt) /\ ~ In x (AbortOld.killed pt).
+Proof. exact old_abort_missed_the_child_inside_popen. Qed.
+Print Assumptions C16_before_D35_refuted.
+
+(* at every state of the main loop (any plan, oracle, jobs): the registered processes are started-and-unreaped operations,
+   and every started-and-unreaped operation is registered unless it is a synchronous one (which has no process) -- so the
+   hypothesis of C16_kill_all holds at every state of the loop, and an abort between two launches or while waiting reaches
+   every task process that exists *)
 Theorem C16_loop_kills_only_unreaped :
   forall p jobs stop orc, wf_plan p -> 1 <= jobs ->
   forall s, reachable p jobs stop orc s ->
-  forall o, In o (live (AtLoop s)) ->
+  forall o, In o (existing (at_loop s)) ->
     (exists sl, In (EStart o sl) (trace s)) /\ (forall rc, ~ In (EFinish o rc) (trace s)).
 Proof. exact loop_procs_are_started_unfinished. Qed.
 Print Assumptions C16_loop_kills_only_unreaped.
@@ -33,10 +77,17 @@ Theorem C16_loop_kills_every_unreaped :
   forall p jobs stop orc, wf_plan p -> 1 <= jobs ->
   forall s, reachable p jobs stop orc s ->
   forall o, (exists sl, In (EStart o sl) (trace s)) -> (forall rc, ~ In (EFinish o rc) (trace s)) ->
-    In o (syncs s) \/ In o (killed (AtLoop s)).
+    In o (syncs s) \/ In o (registered (at_loop s)).
 Proof. exact loop_started_unfinished_async_are_procs. Qed.
 Print Assumptions C16_loop_kills_every_unreaped.
 
+(* non-vacuity: a signal inside the block (before start_execution, i.e. also "inside Popen after the fork") during the launch
+   of process 7 while 3 and 5 run: all three are sent SIGTERM; the same signal before the block reaches 3 and 5, and 7 is never
+   started; no signal: 7 is registered *)
 Example C16_nonvacuous :
-  killed (InLaunch (xinit {| p_ops := []; p_initial := []; p_cached := []; p_num := 0 |} 2) 3 ReturnedNotRegistered) = [3].
-Proof. reflexivity. Qed.
+  let s := {| depth := 0; pending := false; existing := [3; 5]; registered := [3; 5] |} in
+  run 7 LProcess launch_prog [false; false; true] false s = Abort [3; 5; 7] [3; 5; 7] /\
+  run 7 LProcess launch_prog [true] false s = Abort [3; 5] [3; 5] /\
+  run 7 LProcess launch_prog [] false s = Cont {| depth := 0; pending := false; existing := [3; 5; 7]; registered := [3; 5; 7] |} /\
+  run 7 LFails launch_prog [false; false; false; true] false s = Abort [3; 5] [3; 5].
+Proof. vm_compute. repeat split. Qed.
